@@ -961,6 +961,50 @@ func TrieSlotCount(c *core.Ctx, rule string, p *packages.Package) {
 					guarded = true
 				}
 			}
+			// (a') the same test as an earlier guard clause: `if newNode != nil { …; return }` before the update
+			slotCond := func(cond ast.Expr) bool {
+				return nodeContains(cond, true, func(y ast.Node) bool {
+					if id, ok := y.(*ast.Ident); ok && nilVerdict[info.Uses[id]] {
+						return true
+					}
+					be, ok := y.(*ast.BinaryExpr)
+					if !ok || (be.Op != token.EQL && be.Op != token.NEQ) {
+						return false
+					}
+					a, b := ast.Unparen(be.X), ast.Unparen(be.Y)
+					if isNilIdent(info, a) {
+						a, b = b, a
+					}
+					if !isNilIdent(info, b) {
+						return false
+					}
+					if o := objOf(info, a); o != nil && slotVals[o] {
+						return true
+					}
+					if ix, ok := a.(*ast.IndexExpr); ok && m.isChildrenField(info, ix.X) {
+						return true
+					}
+					return false
+				})
+			}
+			for q := ast.Node(inc); q != nil && !guarded; q = parent[q] {
+				blk, ok := parent[q].(*ast.BlockStmt)
+				if !ok {
+					continue
+				}
+				for _, st := range blk.List {
+					if st == q {
+						break
+					}
+					is, ok := st.(*ast.IfStmt)
+					if !ok || is.Else != nil || len(is.Body.List) == 0 || !slotCond(is.Cond) {
+						continue
+					}
+					if _, isRet := is.Body.List[len(is.Body.List)-1].(*ast.ReturnStmt); isRet {
+						guarded = true
+					}
+				}
+			}
 			// (b) filling a node being built: an assignment into the same node's child array in the same block
 			building := false
 			if blk, ok := parent[inc].(*ast.BlockStmt); ok {
